@@ -55,7 +55,7 @@ PROPS = {
     "C20": dict(engine=COMP, variants=["A"], quick=600, thorough=40000),
     "C23": dict(engine=COMP, variants=["A"], quick=600, thorough=40000),
     "C28": dict(engine=SYS, variants=["A", "C"], quick=300, thorough=8000),
-    "C29": dict(engine=SYS, variants=["A", "C"], quick=128, thorough=2500),
+    "C29": dict(engine=SYS, variants=["A", "C"], quick=96, thorough=1000),
     "C30": dict(engine=COMP, variants=["A"], quick=400, thorough=20000),
     "C31": dict(engine=SYS, variants=["A"], quick=240, thorough=6000),
     "C34": dict(engine=SYS, variants=["A", "C"], quick=200, thorough=4000),
